@@ -239,6 +239,21 @@ def run(ctx):
     texts = [junk() for _ in range(2000 if tier == "quick" else 30000)]
     b, sk = run_stage(ctx, texts, "unicode", with_text=False)
     ctx.stage("unicode", texts=len(texts), rejected=b, outside_claim=sk)
+    # ---- faults whose diagnostics mention long values with multi-byte characters at every byte offset: building and
+    # printing the message must not crash either
+    texts = []
+    pads = range(0, 72) if tier == "quick" else range(0, 140)
+    for pad in pads:
+        for ch in ("\u00e9", "\u4e2d", "\U0001F600"):
+            body = "a" * pad + ch * 24
+            k = (pad + ord(ch)) % 8
+            texts.append(['((lambda (x) x) "%s" 2)', "(car '|%s| 1)", '(vector-ref (vector 1) "%s")', '("%s" 1)', '(+ 1 "%s")', "(car '(%s) '(%s))",
+                          "(%s 1 2)", "(apply (lambda (p q) p) '(\"%s\"))"][k].replace("%s", body))
+            if tier != "quick" or pad % 3 == 0:
+                texts.append("(define (f%d %s) 1) (f%d)" % (pad, body, pad))
+                texts.append("(vector-set! #(1 2) 0 '|%s|)" % body)
+    b, sk = run_stage(ctx, texts, "messages", with_text=False)
+    ctx.stage("messages", texts=len(texts), rejected=b, outside_claim=sk)
     # ---- files: programs and libraries that are not valid UTF-8, mutated library sources imported
     fdir = os.path.join(ctx.dir, "files")
     shutil.rmtree(fdir, ignore_errors=True); os.makedirs(fdir)
